@@ -346,6 +346,7 @@ func (f *e1func) runInlined(st *fstate, c *ast.CallExpr, callee *FuncInfo) *inlR
 	// parameters
 	var params []*types.Var
 	var args []ast.Expr
+	variadicAt := -1
 	sig := callee.Sig
 	if r := sig.Recv(); r != nil {
 		params = append(params, r)
@@ -366,6 +367,8 @@ func (f *e1func) runInlined(st *fstate, c *ast.CallExpr, callee *FuncInfo) *inlR
 		if sig.Variadic() && i == sig.Params().Len()-1 {
 			if c.Ellipsis.IsValid() && i < len(c.Args) {
 				a = c.Args[i]
+			} else {
+				variadicAt = len(args)
 			}
 		} else if i < len(c.Args) {
 			a = c.Args[i]
@@ -387,6 +390,16 @@ func (f *e1func) runInlined(st *fstate, c *ast.CallExpr, callee *FuncInfo) *inlR
 	}
 	var add []*Term
 	for i, p := range params {
+		if i == variadicAt && p.Name() != "" && p.Name() != "_" && g.assigned[p] == 0 && !g.addrTaken[p] {
+			// f(a, b, c) with a variadic last parameter: the parameter is the slice of the extra arguments
+			lit := mk("lit", typeStr(p.Type()))
+			n := sig.Params().Len() - 1
+			for j := n; j < len(c.Args); j++ {
+				lit.A = append(lit.A, mk("kv", fmt.Sprint(j-n), f.term(c.Args[j])))
+			}
+			g.tb.sub[p] = lit
+			continue
+		}
 		if p.Name() == "" || p.Name() == "_" || args[i] == nil {
 			continue
 		}
